@@ -179,6 +179,17 @@ type request struct {
 
 // one search on engine s; emits go / info* / ret
 func (r *rec) search(s *search.Search, eng int, fen string, prefix []move.Move, b *board.Board, rq request, tt int, fresh bool) (move.Move, int) {
+	if tt < 32000 {
+		// no info output with such a table: nothing can be triggered by an info line passing, and a search that
+		// ignores its limits while pondering would never be stopped
+		if strings.HasPrefix(rq.stop, "depth") {
+			rq.stop = "none"
+		}
+		rq.ponderHit = ""
+		if rq.hard < 0 && rq.soft < 0 {
+			rq.hard = 20000
+		}
+	}
 	root, _ := board.FromFEN(fen)
 	rp := proj.Project(root)
 	enc := proj.Enc(prefix)
@@ -193,7 +204,14 @@ func (r *rec) search(s *search.Search, eng int, fen string, prefix []move.Move, 
 		w.at = "info depth " + rq.stop[5:] + " "
 	}
 	cnt := &search.Counters{}
-	opts := []search.Option{search.WithDepth(Depth(rq.depth)), search.WithOutput(w), search.WithStop(stop), search.WithCounters(cnt)}
+	opts := []search.Option{search.WithDepth(Depth(rq.depth)), search.WithStop(stop), search.WithCounters(cnt)}
+	if tt >= 32000 {
+		opts = append(opts, search.WithOutput(w))
+	} else {
+		// a table too small for the hashfull estimate: searched without info output (every probe lands in the
+		// same few buckets, so entries of OTHER positions are met all the time)
+		opts = append(opts, search.WithOutput(nil))
+	}
 	if rq.hard >= 0 {
 		opts = append(opts, search.WithNodes(rq.hard))
 	}
@@ -335,7 +353,7 @@ func randomParams(rng *rand.Rand) string {
 	return strings.Join(set, " ")
 }
 
-var ttSizes = []int{32000, 32000, 1 << 20, 1 << 20, 16 << 20}
+var ttSizes = []int{32000, 32000, 1 << 20, 1 << 20, 16 << 20, 32, 64, 32}
 
 // sweep: every hard node budget 0..K on a root (each k is one abort point), plus the other limit kinds
 func (r *rec) sweep(corpus []string, K int) {
